@@ -326,6 +326,15 @@ func verifDecEnd(a, t action, last bool) {
 		verifT.ev("dec", a, t, verifBool(last), true)
 		verifT.mu.Unlock()
 	}
+	if verifYieldOn && !last && a.IsFailed() && verifName(t) != "ROOT" {
+		// a failed action has told a dependent that still waits for other dependencies: hold it here for a while,
+		// so that the dependent is started by one of its other dependencies while this handler is between the
+		// decrement and whatever it does next
+		h := fnv.New64a()
+		fmt.Fprintf(h, "%d/fail/%s/%s", verifSeedVal, verifName(a), verifName(t))
+		time.Sleep(200*time.Millisecond + time.Duration(h.Sum64()%700)*time.Millisecond)
+		return
+	}
 	verifYield(9, t)
 }
 
